@@ -8,7 +8,7 @@ V = Path(__file__).resolve().parent.parent
 props = [json.loads(l) for l in (V / "properties.jsonl").read_text().splitlines() if l.strip()]
 claims = json.loads((V / "tools" / "claims.json").read_text())
 kf = json.loads((V / "known_findings.json").read_text())
-hooks = ["d951d11"]
+hooks = ["d951d11", "28ecee8"]
 checks, na = [], []
 for p in props:
     pid = p["id"]
